@@ -257,7 +257,7 @@ class CallMixin:
                     raise
         for i, r in enumerate(c.requires):
             g = self.eval_spec(r, env, st, old_heap=st.heap, old_env=env)
-            self.oblige("pre", "%s#%d@%d" % (qual, i, line), g, st, node, info={"callee": qual, "clause": r})
+            self.oblige("pre", "%s#%d" % (qual, i), g, st, node, info={"callee": qual, "clause": r})
         old_heap = dict(st.heap)
         # havoc frame
         live = self.live(st)
